@@ -249,7 +249,16 @@ var pureNoBodyPkgs = map[string]bool{"math": true, "math/bits": true, "internal/
 
 // ModSetOf computes (and caches) the set of heap maps a function may write, transitively.
 func (p *Program) ModSetOf(fn *ssa.Function) *ModSet {
-	if ms, ok := p.modsets[fn]; ok {
+	return p.modSetOf(fn, false)
+}
+
+// RawModSetOf infers the frame of fn from its body, ignoring fn's own declared `modifies` clause.
+func (p *Program) RawModSetOf(fn *ssa.Function) *ModSet {
+	return p.modSetOf(fn, true)
+}
+
+func (p *Program) modSetOf(fn *ssa.Function, ignoreOwn bool) *ModSet {
+	if ms, ok := p.modsets[fn]; ok && !ignoreOwn {
 		return ms
 	}
 	// iterative fixpoint over the static call graph reachable from fn
@@ -280,14 +289,8 @@ func (p *Program) ModSetOf(fn *ssa.Function) *ModSet {
 			}
 			continue
 		}
-		if fc := p.ContractFor(f); fc != nil && fc.HasMods {
-			for _, m := range fc.Mods {
-				if m == "*" {
-					ms.All = true
-				} else {
-					ms.Maps[m] = true
-				}
-			}
+		if fc := p.ContractFor(f); fc != nil && fc.HasMods && !(ignoreOwn && f == fn) {
+			ms.add(p.DeclaredMods(fc))
 			continue
 		}
 		for _, b := range f.Blocks {
@@ -353,6 +356,9 @@ func (p *Program) ModSetOf(fn *ssa.Function) *ModSet {
 				}
 			}
 		}
+	}
+	if ignoreOwn {
+		return local[fn]
 	}
 	for _, f := range order {
 		p.modsets[f] = local[f]
@@ -428,4 +434,57 @@ func (p *Program) typeKeys(t types.Type, elem bool, ms *ModSet) {
 			ms.Maps["H|"+typeKey(t)] = true
 		}
 	}
+}
+
+// DeclaredMods resolves the entries of a `modifies` clause: "*", raw heap-map keys, or Type.field /
+// pkg.Type.field names (all leaves below a struct-typed field are included).
+func (p *Program) DeclaredMods(fc *FuncContract) *ModSet {
+	ms := &ModSet{Maps: map[string]bool{}}
+	for _, m := range fc.Mods {
+		switch {
+		case m == "*":
+			ms.All = true
+		case strings.Contains(m, "|"):
+			ms.Maps[m] = true
+		default:
+			parts := strings.Split(m, ".")
+			if len(parts) < 2 {
+				panic(specError{"bad modifies entry " + m + " in contract of " + fc.Name})
+			}
+			field := parts[len(parts)-1]
+			tname := parts[len(parts)-2]
+			var scope *types.Scope
+			if len(parts) == 3 {
+				for path, sp := range p.Pkgs {
+					if sp.Pkg.Name() == parts[0] && strings.HasPrefix(path, modPath) {
+						scope = sp.Pkg.Scope()
+					}
+				}
+			} else if sp := p.Pkgs[fc.Pkg]; sp != nil {
+				scope = sp.Pkg.Scope()
+			}
+			if scope == nil {
+				panic(specError{"cannot resolve package of modifies entry " + m})
+			}
+			tn, ok := scope.Lookup(tname).(*types.TypeName)
+			if !ok {
+				panic(specError{"cannot resolve type of modifies entry " + m})
+			}
+			st, ok := tn.Type().Underlying().(*types.Struct)
+			if !ok {
+				panic(specError{"modifies entry " + m + " is not a struct field"})
+			}
+			found := false
+			for i := 0; i < st.NumFields(); i++ {
+				if st.Field(i).Name() == field {
+					p.fieldKeys(tn.Type(), i, ms)
+					found = true
+				}
+			}
+			if !found {
+				panic(specError{"no field " + field + " in " + tname})
+			}
+		}
+	}
+	return ms
 }
